@@ -842,7 +842,7 @@ func (s *ShapeIndex) applyUpdatesInternal() {
 	// batched updating to limit the amount of items per batch to a
 	// configurable memory footprint overhead.
 	if !s.isFirstUpdate() {
-		if s.pendingAdditionsPos >= int32(len(s.shapes)) && len(s.pendingRemovals) == 0 {
+		if s.pendingAdditionsPos >= s.nextID && len(s.pendingRemovals) == 0 {
 			// Nothing is pending (e.g. another caller applied the updates first).
 			return
 		}
@@ -864,7 +864,7 @@ func (s *ShapeIndex) applyUpdatesInternal() {
 		s.removeShapeInternal(p, allEdges, t)
 	}
 
-	for id := s.pendingAdditionsPos; id < int32(len(s.shapes)); id++ {
+	for id := s.pendingAdditionsPos; id < s.nextID; id++ {
 		s.addShapeInternal(id, allEdges, t)
 	}
 
@@ -873,7 +873,7 @@ func (s *ShapeIndex) applyUpdatesInternal() {
 	}
 
 	s.pendingRemovals = s.pendingRemovals[:0]
-	s.pendingAdditionsPos = int32(len(s.shapes))
+	s.pendingAdditionsPos = s.nextID
 	// It is the caller's responsibility to update the index status.
 }
 
@@ -1229,7 +1229,7 @@ func (s *ShapeIndex) makeIndexCell(p *PaddedCell, edges []*clippedEdge, t *track
 	for i := 0; i < numShapes; i++ {
 		var clipped *clippedShape
 		// advance to next value base + i
-		eshapeID := int32(s.Len())
+		eshapeID := s.nextID
 		cshapeID := eshapeID // Sentinels
 
 		if eNext != len(edges) {
